@@ -14,6 +14,8 @@ def _kw_grammar(n):
 FULL = [
     # keyword tables long enough to wrap the @@keyword lines of the pretty-printed text (every boundary keyword is an input)
     *[(f'keywords-{n}', _kw_grammar(n), ['ab cd', *_KW[:n], *[f'ab {k}' for k in _KW[:n:3]], 'zz']) for n in (9, 14, 23, 37)],
+    ('based-inherits-params', "base[A, x=1] = 'a' ;\nstart < base = 'b' $ ;", ['a b', 'a', 'b']),
+    ('int-param', "start = x y $ ;\nx[1] = 'a' ;\ny[2.5, k=3] = 'b' ;", ['a b', 'a']),
     ('emptyclosure-ends-rule', "start = 'a' {} ;\nz = 'b' ;", ['a', 'a b', 'b']),
     # wide and combining characters in tokens and rule names (railroad tracks are measured in display columns)
     ('wide-tokens', "start = '你好' ('世界' | 'world') $ ;", ['你好 世界', '你好 world', '你好']),
